@@ -304,7 +304,7 @@ def analyse(st):
         i = st["impl"].get(k)
         m = st["model"].get(k)
         o = st["oracle"].get(k, "")
-        if i == "skip" or o.startswith("skip"):
+        if i == "skip" or (o.startswith("skip") and not o.startswith("skip-verdict")):
             skipped.append(k); continue
         if i != m:
             dis.append(k)
@@ -416,6 +416,24 @@ def check(prop, tier, seed):
     rounds = int(os.environ.get("VERIF_THOROUGH_ROUNDS", "12")) if tier == "thorough" else 1
     if prop == "C16": rounds = min(rounds, 2)   # C16 pins its own CPU affinity per case: do not oversubscribe
     st = run_streams_thorough(prop, seed, wdir, rounds) if rounds > 1 else run_streams(prop, tier, seed, wdir)
+    n_edge = 0
+    if tier == "thorough" or os.environ.get("VERIF_EDGE"):
+        # edge-case stream (edge/make.py): degenerate inputs outside the oracles' domain; correspondence only
+        ecases = os.path.join(wdir, "edge.cases")
+        r = sh([sys.executable, os.path.join(ROOT, "edge", "make.py"), prop, ecases], timeout=1800)
+        if r.returncode != 0:
+            print(r.stdout); print("ERROR: edge generator failed"); sys.exit(2)
+        if os.path.getsize(ecases) > 0:
+            se = run_cases(ecases, wdir, "edge")
+            n_edge = len(se["order"])
+            for k in se["order"]:
+                st["order"].append(k)
+                st["cases"][k] = se["cases"][k]
+                st["impl"][k] = se["impl"].get(k); st["model"][k] = se["model"].get(k)
+                st["meta"][k] = se["meta"].get(k, "")
+                o = se["oracle"].get(k, "")
+                st["oracle"][k] = "skip-verdict(edge) " + o if o.startswith("FAIL") else o
+            st["t_impl"] += se["t_impl"]; st["t_model"] += se["t_model"]
     dis, fails, skipped = analyse(st)
     unknown, known = known_filter(prop, st, fails)
     dist, distinct = stats(st, set(skipped))
@@ -481,7 +499,7 @@ def check(prop, tier, seed):
             "theorems": [{"name": t["name"], "class": t.get("class", ""), "partial": t.get("partial", False),
                           "axioms": pl["axioms"].get(t["name"])} for t in rules.get("theorems", [])],
             "proof_problems": pl["problems"],
-            "evaluations": len(st["order"]), "skipped_overflow": len(skipped),
+            "evaluations": len(st["order"]), "skipped_overflow": len(skipped), "edge_cases": n_edge,
             "distinct_nontrivial": distinct,
             "rule": rules.get("rule", "distinct request lines (after removing the id) not flagged trivial=1 by the harness"),
             "correspondence": {"lines_compared": len(st["order"]) - len(skipped), "disagreements": len(dis),
